@@ -2,9 +2,13 @@ SPECIFICATION Spec
 CONSTANTS
   MaskUpdated = TRUE
   MaxOps = 3
+  MaxRep = 3
   MaxPool = 3
-  Sizes = {0, 1, 2}
-  MaxParts = 3
+  Sizes = {0, 1}
+  MaxParts = 2
+  Fams = {"wf", "dup", "twotok", "twover", "twosame", "tokzero", "overlap664", "range664", "diffn", "pno", "twomain"}
+  Take = FALSE
+  Linear = FALSE
   Export = FALSE
 VIEW View
-INVARIANTS MaskExact DuplicateFree CompleteExact LastStepLegal Commutes Idempotent NoBugWhenMaskUpdated
+INVARIANTS MaskExact DuplicateFree CompleteExact LastStepLegal Commutes Idempotent ForeignInert NoBugWhenMaskUpdated
